@@ -108,11 +108,10 @@ class VCSStrategyGit(VCSStrategy):
             "--exclude-standard",
             "--ignored",
             "--others",
+            # Wholly ignored directories are listed as such. Do not add
+            # --no-empty-directory: with it, Git omits ignored files that sit
+            # in an untracked directory next to non-ignored files.
             "--directory",
-            # TODO: This flag is unexpected.  I reported it as a bug in Git.
-            # This flag---counter-intuitively---lists untracked directories
-            # that contain ignored files.
-            "--no-empty-directory",
             # Separate output with \0 instead of \n.
             "-z",
         ]
